@@ -19,7 +19,7 @@ func n(q, t int) func(string) int {
 var opAssume = []string{
 	"events are delivered to the operator one HandleEvent at a time (serialised senders), so the sequential model is the specification; concurrent senders are the subject of the C02 part",
 	"the handler is the harness: it asserts the supplied KeyStates against the fold of the mutations it returned (shadow), at the exact observable the property names",
-	"a killed operator is a dead process: its objects are pinned (known finding old-instance-gc covers the in-process variant)",
+	"a killed operator is a dead process: its objects are pinned and no cleanup of it runs; an IDLE operator object is also deployed again in place (plain builds, a third of the redeploy steps)",
 	"timers and watermarks use timestamps > epoch (the statement's domain)",
 }
 
@@ -45,7 +45,7 @@ func main() {
 			}},
 		&lib.Prop{ID: "C02", Part: "alignment", Level: "exploration", NCases: n(80, 4000),
 			Assumptions: append([]string{"the job never starts checkpoint N+1 before N completed, so barriers of two checkpoints never overlap", "the verif hook in alignSender only reports that a sender parked / was released; a sender that is NOT held is detected by its HandleEvent returning before the last barrier"}, opAssume[1:]...),
-			Rule:        "[2..4 senders; 4 of 5 checkpoints are concurrent: after its barrier a sender immediately tries to deliver its next event (several senders with keyed events, or one sender with a watermark whose timers are due) from its own goroutine, exactly like the embedded client] " + scriptRule + "; extra oracle: an aligned sender must park (hook) and not return until the last barrier was handled; the acknowledgement must come after exactly the handler invocations of the pre-barrier events (cut position); the DKV checkpoint named in the ack read back == shadow frozen at the ack; released events reach the handler after the cut in any order among themselves",
+			Rule:        "[2..4 senders; 4 of 5 checkpoints are concurrent: after its barrier a sender immediately tries to deliver its next event (several senders with keyed events, or one sender with a watermark whose timers are due) from its own goroutine, exactly like the embedded client] " + scriptRule + "; extra oracle: an aligned sender must park (hook) and not return until the last barrier was handled; the acknowledgement must come after exactly the handler invocations of the pre-barrier events (cut position); the DKV checkpoint named in the ack read back == shadow frozen at the ack; released events reach the handler after the cut in any order among themselves; in half of the aligned-sender episodes barrier and next event travel in ONE batch through the embedded operator client; some parked requests are abandoned by their caller (context cancelled) and their event must still not reach the handler before the cut",
 			Run: func(c *lib.Ctx) {
 				runScript(c, flavour{prop: "C02", mutations: 8, timers: 6, watermarks: 14, manySenders: true, concurrent: true})
 			}},
@@ -53,10 +53,10 @@ func main() {
 			Rule: "partitioning.AssignRanges(to, from) for key-group counts {4,7,12,256,1000,65535}, 1..6 old and 1..6 new operators, EVERY permutation of the recorded old ranges, compared with the brute-force overlap relation; non-trivial = >=2 old operators; distinct by (groups, m, n)"},
 		&lib.Prop{ID: "C06", Part: "rescale", Level: "exploration", NCases: n(40, 2500), Run: c06Rescale,
 			Assumptions: append([]string{"no source runners: the harness routes each key to the operator owning its group (routing itself is C05/C04)", "operator count <= key-group count (an assembly with an empty range cannot be deployed)"}, opAssume[1:]...),
-			Rule:        "chains M->N(->P->Q) of real operator assemblies (M,N in 1..4, thorough up to 6; key groups {4,7,256,1000}; 1..2 senders; dkv tuned so pre-checkpoint state is in memtables only / flushed / compacted): history of keyed events with programs + watermarks broadcast to every operator, job checkpoint (every operator acknowledges), all operators killed, N fresh operators (new ids, sometimes survivor ids = same directory) deployed with exactly the checkpoint assignment jobs.Assembly.Deploy computes (AssignRanges over the acknowledgements in a SEEDED ORDER), every key touched once after the restore, more history, next job checkpoint; oracles: AssignRanges vs brute-force overlap; handler-side KeyStates == shadow (lost or foreign state), per-operator sequential model of handler invocations incl. timers (lost / foreign / duplicated timers), each operator's next checkpoint read back and compared with shadow and pending timers restricted to its key groups; non-trivial = always; distinct by (chain, groups, ops) hash"},
+			Rule:        "chains M->N(->P->Q) of real operator assemblies (M,N in 1..4, thorough up to 6; key groups {4,7,256,1000}; 1..2 senders; dkv tuned so pre-checkpoint state is in memtables only / flushed / compacted): history of keyed events with programs + watermarks broadcast to every operator, job checkpoint (every operator acknowledges), all operators killed, N fresh operators (new ids; survivor ids = same directory only when the known finding in-place-redeploy is not listed) deployed with exactly the checkpoint assignment jobs.Assembly.Deploy computes (AssignRanges over the acknowledgements in a SEEDED ORDER), every key touched once after the restore, more history, next job checkpoint; oracles: AssignRanges vs brute-force overlap; handler-side KeyStates == shadow (lost or foreign state), per-operator sequential model of handler invocations incl. timers (lost / foreign / duplicated timers), each operator's next checkpoint read back and compared with shadow and pending timers restricted to its key groups; non-trivial = always; distinct by (chain, groups, ops) hash"},
 		&lib.Prop{ID: "C09", Part: "operators", Level: "exploration", NCases: n(30, 1500), Run: c09Operators,
 			Assumptions: append([]string{"neighbour NeedsTable answers follow a seeded policy per ordered operator pair: truth / error / delay / unreachable", "file existence is checked on the local directory storage (os.Stat)"}, opAssume[1:]...),
-			Rule:        "M (1..3) operators -> N (2..4) operators rescale so that tables are shared, then 2..5 rounds of history + job checkpoint + retention update to the newest checkpoint + waiting for compactions + forced GC, with every neighbour's NeedsTable answering by policy (truth/error/delay/unreachable in every combination over the ordered pairs); after every round every file referenced by each live operator's saved checkpoints document (WALs and tables of retained checkpoints) or by its live level set (verif accessor) must exist on disk, and every key is touched so the handler-side state oracle reads through the shared tables; non-trivial = always; distinct by ops hash"},
+			Rule:        "M (1..3) operators -> N (2..4) operators rescale so that tables are shared (optionally with history and GC before the first checkpoint, and a NeedsTable question to a registered but not yet deployed operator, which must fail rather than answer 'not needed'), then 2..5 rounds of history + job checkpoint + retention update to the newest checkpoint + waiting for compactions + forced GC, with every neighbour's NeedsTable answering by policy (truth/error/delay/unreachable in every combination over the ordered pairs); after every round every file referenced by each live operator's saved checkpoints document (WALs and tables of retained checkpoints) or by its live level set (verif accessor) must exist on disk, and every key is touched so the handler-side state oracle reads through the shared tables; non-trivial = always; distinct by ops hash"},
 	)
 }
 
